@@ -297,6 +297,7 @@ type BlockOpts struct {
 	ViewFrom     *Node  // build on an INVALID parent: take the coins from this (valid) ancestor's view
 	Fat          int    // >0: the coinbase gets an extra zero-value output with a script of this many bytes
 	FatN         int    // that many more of them
+	HugeFanout   bool   // the block carries one transaction with 65537+ outputs
 	PreferHeight uint32 // != 0: the first transaction spends an output created (by a transaction, not a coinbase) at this height, if the view has one
 }
 
@@ -678,6 +679,34 @@ func (m *Miner) Build(parent *Node, o BlockOpts) (b *Block, ok bool) {
 					}
 				}
 			}
+		}
+	}
+	if o.HugeFanout {
+		// one transaction with more than 65536 outputs (tiny ones nobody indexes) and two outputs to a wallet
+		// address, one below and one above index 65535
+		for _, c := range m.Spendables(view, height, nil) {
+			if c.Coin.Value < 3_000_000 {
+				continue
+			}
+			t := &Tx{Ver: 2, In: []TxIn{{Prev: c.Op, Seq: 0xffffffff}}}
+			addr := m.W.Script(KP2WPKH, m.R.Intn(m.W.NKeys()))
+			hi := 65536 + m.R.Intn(300)
+			lo := m.R.Intn(60000)
+			for k := 0; k <= hi; k++ {
+				switch k {
+				case lo:
+					t.Out = append(t.Out, TxOut{1_000_000, addr})
+				case hi:
+					t.Out = append(t.Out, TxOut{c.Coin.Value - 1_000_000 - 2000, addr})
+				default:
+					t.Out = append(t.Out, TxOut{0, []byte{0x51}})
+				}
+			}
+			m.SignAll(t, []Coin{c.Coin}, -1, COk)
+			txs = append(txs, t)
+			fees += 2000
+			delete(view, c.Op)
+			break
 		}
 	}
 	claim := Subsidy(height) + fees
